@@ -83,13 +83,13 @@ def check_sketch_cells(rep, fl, rule="R13.4", fold=True):
                   "(an unmasked index leaves the row: panic in the caller or the policy worker)" % (show(ri), show(ii), show(re_), show(ie)))
         if not fold:
             return
-        # estimate is a minimum fold
+        # estimate is a minimum fold: the accumulator (a variable that lives outside the loop and is written
+        # inside it) holds min(accumulator, row value) after every round, in any spelling -
+        # `if val < min { min = val }`, `min = if val < min { val } else { min }`, `min = min.min(val)`, `fold`
         it = cells["estimate"][2]
         fb = it.body
-        at2, entry2 = dataflow(fb)
-        val_tgt = place_target(fb, cells["estimate"][3][1]["dest"])
-        # writes, inside the loop, to a variable declared outside it
-        mins = []
+        val = norm(fb.expand(norm(fb.call_expr(cells["estimate"][3][1], True))))
+        accs = set()
         for x in sorted(it.region):
             for y, st2 in enumerate(fb.blocks[x]["stmts"]):
                 if st2["k"] != "assign":
@@ -99,23 +99,43 @@ def check_sketch_cells(rep, fl, rule="R13.4", fold=True):
                     continue
                 l = fb.name_local.get(tg[1])
                 if l is not None and any(d[0] not in it.region for d in fb.defs.get(l, [])):
-                    mins.append((x, y, st2))
-        okm = len(mins) == 1
+                    accs.add(l)
+        okm = len(accs) == 1
+        why = "%d variables are carried across the rows" % len(accs)
         if okm:
-            x, y, st2 = mins[0]
-            mvar = place_target(fb, st2["pl"])
-            want = ("atom", ("bin", "Lt", val_tgt, mvar))
-            wv = norm(fb.rvalue_expr(st2["rv"], True))
-            okm = all(feval(want, s) is True for s in entry2.get(x, set())) and (wv == norm(fb.expand(val_tgt)) or wv == val_tgt or norm(fb.expand(wv)) == norm(fb.expand(val_tgt)))
-            # and the not-smaller edge leaves min untouched (only one write) ; initial value >= 15
-            ml = fb.name_local.get(mvar[1])
-            init = [norm(fb.def_expr(a_, b_, True)) for a_, b_ in fb.defs.get(ml, []) if a_ not in it.region] if ml is not None else []
+            ml = next(iter(accs))
+            mvar = ("var", fb.local_name[ml])
+            segs = sym_segment(fb, it.some, [it.nbi]) or []
+            okm = bool(segs)
+            for lits, env in segs:
+                fin = norm(env.get(mvar, mvar))
+                vcur = val
+                # the row value as this path computed it (locals substituted)
+                lt = None
+                for a_, v_ in lits:
+                    a_ = norm(a_)
+                    if a_[0] == "bin" and a_[1] == "Lt" and norm(fb.expand(a_[2])) == vcur and a_[3] == mvar:
+                        lt = v_          # val < min
+                    elif a_[0] == "bin" and a_[1] == "Lt" and a_[2] == mvar and norm(fb.expand(a_[3])) == vcur:
+                        lt = (not v_) if lt is None else lt   # min < val: then not (val < min); equal values fold either way
+                fe = norm(fb.expand(fin))
+                is_min = (is_call(fe, "Ord::min") or is_call(fe, "cmp::min") or is_call(fe, "min")) and len(fe[2]) == 2 and \
+                    {norm(fb.expand(fe[2][0])), norm(fb.expand(fe[2][1]))} == {mvar, vcur}
+                if is_min:
+                    continue
+                if lt is True and fe == vcur:
+                    continue
+                if lt is False and fin == mvar:
+                    continue
+                okm = False
+                why = "a round can leave the accumulator at %s" % show(fe)
+            init = [norm(fb.def_expr(a_, b_, True)) for a_, b_ in fb.defs.get(ml, []) if a_ not in it.region]
             okinit = len(init) == 1 and init[0][0] == "const" and init[0][1] >= 15
             rep.check(okinit, rule, fl, sest, "min init", "the fold starts at a value >= 15 (%s)" % (init[0][1] if init else "?"), "min starts at %s: estimates would be capped below the counters" % [show(z) for z in init])
-            ret = norm(return_expr(fb))
-            rep.check(strip_casts(ret) == mvar, rule, fl, sest, "returns min", "estimate returns the folded minimum", "estimate returns %s" % show(ret))
-        rep.check(okm, rule, fl, sest, "min fold", "min = val only when val < min: the estimate is the minimum over the rows", "the per-row fold is not `if val < min { min = val }`")
-
+            ret = norm(return_expr(fb)) if return_expr(fb) is not None else ("unknown",)
+            rep.check(strip_casts(ret) == mvar or strip_casts(norm(fb.expand(ret))) == mvar, rule, fl, sest, "returns min", "estimate returns the folded minimum", "estimate returns %s" % show(ret))
+        rep.check(okm, rule, fl, sest, "min fold", "after every row the accumulator is min(accumulator, row value): the estimate is the minimum over the rows",
+                  "the per-row fold does not keep the minimum (%s)" % why)
 
 
 def check_C13(rep, fl):
